@@ -693,6 +693,15 @@ def rule_k11(repo):
     return res
 
 
+def rule_k12(repo):
+    """The closedness test of the substitution rule (K10) and the side condition of abstraction / forall_intr
+    (K3) are structural recursions: they are worth what their traversal is worth."""
+    from ..traverse import traversal_rule
+    return traversal_rule(repo, 'C01.K12', 'the term predicates the primitive rules rely on look at every sub-term',
+                          [(TERM, 'Term.is_open.<locals>.rec'), (TERM, 'Term.occurs_var')],
+                          'the primitive rule that relies on this test accepts a term in which the offending variable sits in the position that is skipped')
+
+
 def rules(repo):
     return [rule_k1(repo), rule_k2(repo), rule_k3(repo), rule_k4(repo), rule_k5(repo), rule_k6(repo),
-            rule_k8(repo), rule_k9(repo), rule_k10(repo), rule_k11(repo)]
+            rule_k8(repo), rule_k9(repo), rule_k10(repo), rule_k11(repo), rule_k12(repo)]
